@@ -109,8 +109,8 @@ func gelsOracle(ck *checker, what string, op, b, x M, well bool) {
 }
 
 func genGels(g *vlib.G) {
-	N := vlib.Pick(g, 8, 11)
-	nbs := vlib.Pick(g, []int{2, 3, 4}, []int{1, 2, 3, 4})
+	N := vlib.Pick(g, 12, 13)
+	nbs := vlib.Pick(g, []int{1, 2, 3, 4}, []int{1, 2, 3, 4, 5})
 	fams := pickFams(generalFams(N, false), "dd", "had", "rowgraded", "colgraded", "id", "zero", "zerocol0", fmt.Sprintf("zerocol%d", N/2))
 	type scl struct {
 		name   string
@@ -194,12 +194,13 @@ func genGels(g *vlib.G) {
 									menu := append([]int{query}, lworkMenu(minw, query, 0, true)...)
 									menu = append(menu, docMin)
 									for idx, lwork := range menu {
-										for _, pad := range []int{0, 3} {
-											if pad != 0 && idx > 0 && lwork != minw && lwork != query+5 {
+										for _, pd := range ldPads {
+											if pd != ldPads[0] && idx > 0 && lwork != minw && lwork != query+5 {
 												continue
 											}
-											ck.ctx = fmt.Sprintf("lwork=%d pad=%d", lwork, pad)
-											r := runGels(ck, trans, a, b, lda+pad, ldb+pad, lwork)
+											pad := pd[0] + pd[1]
+											ck.ctx = fmt.Sprintf("lwork=%d lda+%d ldb+%d", lwork, pd[0], pd[1])
+											r := runGels(ck, trans, a, b, lda+pd[0], ldb+pd[1], lwork)
 											paths[r.path]++
 											if mn == 0 || nrhs == 0 || normMax(a0) == 0 {
 												if !r.ok {
